@@ -337,6 +337,19 @@ class Rewriter:
             self._fire('debug')
 
     # -- driver --------------------------------------------------------------------------
+    def _static_asserts(self, t):
+        """`static_assert(...);` inside a body is checked by the C++ compiler on every build and has no run-time meaning: dropped (balanced parentheses)"""
+        while True:
+            m = re.search(r'\bstatic_assert\s*\(', t)
+            if not m:
+                return t
+            c = match_brace(t, m.end() - 1)
+            mm = re.match(r'\s*;', t[c + 1:])
+            if not mm:
+                raise ExtractionBreak('%s: static_assert without terminating semicolon' % self.name)
+            t = t[:m.start()] + t[c + 1 + mm.end():]
+            self._fire('static_assert')
+
     def rewrite(self, body):
         t = body
         for (pat, repl, minfire) in self.pre:
@@ -344,6 +357,7 @@ class Rewriter:
             if n < minfire:
                 raise ExtractionBreak('%s: recipe rule /%s/ fired %d < %d times' % (self.name, pat, n, minfire))
             t = t2
+        t = self._static_asserts(t)
         t = self._sub('attr', r'\[\[[^\]]*\]\]', '', t)
         t = self._sub('noexcept', r'\bnoexcept\b', '', t)
         t = self._sub('inline', r'\bYACLIB_INLINE\b', '', t)
@@ -545,7 +559,7 @@ def auto_helpers(repo, rel, within, c_text, known, rewrite, ctype=None, max_roun
         for nm in calls:
             seen.add(nm)
             try:
-                b = find_body(repo, rel, r'(?:YACLIB_INLINE\s+|static\s+|inline\s+|\[\[nodiscard\]\]\s+)*(?:void|bool|auto\s*\*?|[\w:]+(?:<[^<>()]*>)?\s*[*&]?)\s+' + nm + r'\s*\((?:[^()]|\([^()]*\))*\)\s*(?:const\s*)?(?:noexcept\s*)?', nm, within=within)
+                b = find_body(repo, rel, r'(?:YACLIB_INLINE\s+|static\s+|inline\s+|\[\[nodiscard\]\]\s+)*(?<!\w)(?!(?:return|else|co_return|co_await|co_yield|throw|new|delete|case|goto|typename|using)\b)(?:void|bool|auto\s*\*?|[\w:]+(?:<[^<>()]*>)?\s*[*&]?)\s+' + nm + r'\s*\((?:[^()]|\([^()]*\))*\)\s*(?:const\s*)?(?:noexcept\s*)?', nm, within=within)
             except EB:
                 continue
             m = re.match(r'\s*(?:YACLIB_INLINE\s+|static\s+|inline\s+|\[\[nodiscard\]\]\s+)*(void|bool|auto\s*\*?|[\w:]+(?:<[^<>()]*>)?\s*[*&]?)\s+' + nm + r'\s*\(((?:[^()]|\([^()]*\))*)\)', b.sig)
@@ -575,3 +589,58 @@ def auto_helpers(repo, rel, within, c_text, known, rewrite, ctype=None, max_roun
             bodies.append(b)
             text += body_c
     return ''.join(reversed(defs)), bodies
+
+
+def inline_void_helpers(repo, rel, body_text, known=(), max_rounds=2):
+    """A refactoring that moves a few statements (possibly a loop) of a function under contract into a NEW helper of the same file (`void Name(params)`: free function in an anonymous
+    namespace, static function or member), called as a statement `Name(a, b);`, is undone textually before rewriting: the call statement is replaced by `{ body }` with the parameter
+    names replaced by the argument expressions.  Only helpers without `return`, whose parameters are references / pointers / scalars and whose arguments are plain identifiers
+    (or `*this` / member names) are taken; anything else is left alone (the job then stays undecided at the undefined call).  Returns (text, [Body of inlined helpers])."""
+    from vf.extract import find_body, ExtractionBreak as EB
+    bodies = []
+    text = body_text
+    for _ in range(max_rounds):
+        changed = False
+        for m in list(re.finditer(r'(?<![\w.>:])([A-Z]\w*[a-z]\w*)\s*\(\s*((?:[\w*>.-]+\s*(?:,\s*[\w*>.-]+\s*)*)?)\)\s*;', text)):
+            nm = m.group(1)
+            if nm in known or nm in C_KEYWORDS:
+                continue
+            pre_stmt = text[:m.start()].rstrip()
+            if pre_stmt and pre_stmt[-1] not in ';{}':       # must be a statement on its own (not `return F();`, not `x = F();`)
+                continue
+            try:
+                b = find_body(repo, rel, r'(?<!\w)(?:static\s+|inline\s+|YACLIB_INLINE\s+)*void\s+(?:\w+::)?' + nm + r'\s*\((?:[^()]|\([^()]*\))*\)\s*(?:const\s*)?(?:noexcept\s*)?', nm)
+            except EB:
+                continue
+            if re.search(r'\breturn\b', b.text):
+                continue
+            pm = re.search(nm + r'\s*\(((?:[^()]|\([^()]*\))*)\)', b.sig)
+            params = [x.strip() for x in pm.group(1).split(',') if x.strip()] if pm else None
+            args = [x.strip() for x in m.group(2).split(',') if x.strip()]
+            if params is None or len(params) != len(args):
+                continue
+            names, ok = [], True
+            for prm in params:
+                q = re.match(r'(?:const\s+)?[\w:]+(?:<[^<>]*>)?\s*[*&]*\s*(\w+)$', prm)
+                if not q:
+                    ok = False
+                    break
+                names.append(q.group(1))
+            if not ok:
+                continue
+            inl = b.text
+            for pn, a in zip(names, args):
+                if pn != a:
+                    if re.search(r'\b%s\b' % re.escape(a), inl) and not re.match(r'^\w+$', a):
+                        ok = False
+                        break
+                    inl = re.sub(r'\b%s\b' % re.escape(pn), a, inl)
+            if not ok:
+                continue
+            text = text[:m.start()] + '{' + inl + '}' + text[m.end():]
+            bodies.append(b)
+            changed = True
+            break        # offsets changed: rescan
+        if not changed:
+            break
+    return text, bodies
